@@ -15,5 +15,16 @@ for m in metas:
     for f in u.functions:
         if f.file.endswith(".c") and getattr(f, "alias_of", None) is None:
             out.setdefault(f.file, {}).setdefault(f.name, A.fingerprint(f))
+recs = {}
+for m in metas:
+    facts = json.load(open(os.path.join(d, m["facts"])))
+    for r in facts["records"]:
+        if r.get("name") and r["name"] not in recs and any("/repo/" not in (f.get("t") or "") for f in r["fields"]):
+            loc = r.get("loc")
+            fl = facts["files"][loc[0]] if loc else ""
+            if fl.startswith("/") and not fl.startswith("/repo"):
+                continue            # system and OpenSSL records are not the repository's to rename
+            recs[r["name"]] = [[f["name"], f.get("t")] for f in r["fields"]]
+out["//records"] = recs
 json.dump(out, open(A.PATH, "w"), indent=0, sort_keys=True)
-print("anchors:", sum(len(v) for v in out.values()), "functions in", len(out), "files")
+print("anchors:", sum(len(v) for k, v in out.items() if not k.startswith("//")), "functions in", len(out) - 1, "files;", len(recs), "records")
